@@ -14,7 +14,11 @@
 //    a move finds only one tree, a second operation follows while bytes are left: mpt_node_parse (FILE from fmemopen)
 //    reloading a populated or empty node; mpt_node_clear of children parked under a stack node while they still name
 //    their old parent, which already has a new child or none (what mpt_node_parse does); manual surgery (a list tail cut
-//    off and hung below another node by forward links / children head only) followed by mpt_gnode_relink.
+//    off and hung below another node by forward links / children head only) followed by mpt_gnode_relink; mpt_parse_config
+//    with a handler calling mpt_node_append, seeded like mpt_parse_node (current node = target, previous operation =
+//    section start), on populated and empty targets: the parsed elements go behind the children the target has.
+//    A share of the nodes is named by binary identifier data (charset 0, 3 bytes inline or 21/24/85/300 bytes), derived
+//    from the name draws; clones are compared with mpt_identifier_inequal and byte by byte.
 //    Preconditions taken from the callers in /repo: the inserted node is detached (no parent/next/prev), the target is
 //    not inside the inserted node's own subtree, move works between different trees with dst = head of the target list.
 // O: after every step a full walk over all live nodes (see observe()): next/prev agree, siblings share the parent,
